@@ -382,8 +382,11 @@ def run_c09(tier: str) -> int:
         "DBC rule 'two CAN bindings with the same frame id' = two bindings with protocol 'can' that both declare an id",
         "C rule 'message wider than 64 bits' = a binding with protocol 'can' whose struct's field widths sum to > 64",
     ]
+    cases.sort(key=lambda c: (c[1] != "general", c[0]))     # general-rule cases first: they are the cheapest
     for r in pmap(c09_case, cases):
         rep.merge(r)
+        if rep.red_enough():
+            break
     if rep.vacuity.get("ok_paths", 0) == 0 or rep.vacuity.get("err_paths", 0) == 0:
         rep.inconclusive.append(f"vacuity: need both Ok and Err paths, got {rep.vacuity}")
     return rep.finish()
